@@ -271,8 +271,24 @@ _NOFLAGS = {"daemon1": 0, "daemon2": 0, "cancel1": 0, "cdm0a": 0, "cdm1a": 0}
 
 def _cubes(tier):
     if tier == "thorough":
-        # full product: every mode x every pair of handler kinds, all flags free
-        return [{"mode": m, "kind0": a, "kind1": b} for m in range(3) for a in range(NKINDS) for b in range(NKINDS)]
+        # every mode x every pair of handler kinds; with an end_time the daemon/cancel flags that cannot matter are fixed,
+        # without one the flag product is explored (split by daemon1 / generator delay to keep cubes small)
+        out = []
+        for a in range(NKINDS):
+            for b in range(NKINDS):
+                for m in (1, 2):
+                    out.append({"mode": m, "kind0": a, "kind1": b, "cancel1": 0, "daemon2": 0, "unscheduled_events_created": 0})
+                for d1 in range(2):
+                    base = {"mode": 0, "kind0": a, "kind1": b, "daemon1": d1, "cdm1a": 0, "unscheduled_events_created": 0}
+                    if a == 3:
+                        out.extend(dict(base, gdelay0=g) for g in range(len(DELAYS)))
+                    else:
+                        out.append(base)
+        # index gaps (events created but never scheduled) for the spawning kinds
+        for m in range(3):
+            for a in (1, 2, 3):
+                out.append(dict(_NOFLAGS, mode=m, kind0=a, kind1=1, unscheduled_events_created=1))
+        return out
     cubes = []
     # focus "order/ties": no daemon / pre-cancel flags
     for m in range(3):
